@@ -132,6 +132,8 @@ def main(argv=None):
                 failures.append(f)
             elif f.get('reproduced') is False:
                 spurious += 1
+                if str(f.get('tag', '')).startswith('exception') and not any(str(t).startswith('exception') for t in f.get('replay_tags', [])):
+                    problems.append(f"exception only in the symbolic run (stub gap?): {f.get('tag')} at {f.get('site')}: {f.get('detail')}")
             else:
                 failures.append(f)     # not replayable => treated as failure of the harness below
     if not_exhausted:
